@@ -1,0 +1,65 @@
+//go:build verif
+
+// Contracts for the deductive verifier in /verif (govc). Comment-only: this file declares nothing and is
+// compiled only under the build tag `verif`. Syntax: see /verif/DESIGN.md §2.5.
+
+package structs
+
+//@ file intention.go
+
+// number of exact (non-wildcard) components of a (namespace, name) pair, as the property states it
+//@ pure exactCount(ns string, name string) int = ite(ns == "*", 0, ite(name == "*", 1, 2))
+
+//@ func Intention.countExact
+//@ props C13
+//@ results cnt
+//@ ensures[count] cnt == exactCount(ns, n)
+//@ modifies nothing
+
+//@ func Intention.UpdatePrecedence
+//@ props C13
+//@ requires x != nil
+//@ ensures[formula] x.Precedence == 3*exactCount(x.DestinationNS, x.DestinationName) + exactCount(x.SourceNS, x.SourceName) + 1
+//@ modifies x.Precedence
+
+//@ file intention.go
+//@ props C13
+// P1: a higher precedence number means (destination exactness, source exactness) is lexicographically larger:
+// exact names before wildcards, destination specificity before source specificity.
+//@ lemma C13.precedence-is-lexicographic: forall d1 int, s1 int, d2 int, s2 int :: 0 <= d1 && d1 <= 2 && 0 <= s1 && s1 <= 2 && 0 <= d2 && d2 <= 2 && 0 <= s2 && s2 <= 2 ==> ((3*d1 + s1 + 1 > 3*d2 + s2 + 1) <==> (d1 > d2 || (d1 == d2 && s1 > s2)))
+
+// The sort order as a spec function: descending precedence, then the canonical tuple.
+//@ pure ixnLess(a *Intention, b *Intention) bool = ite(a.Precedence != b.Precedence, a.Precedence > b.Precedence, ite(a.SourceSamenessGroup != b.SourceSamenessGroup, strLt(a.SourceSamenessGroup, b.SourceSamenessGroup), ite(a.SourcePeer != b.SourcePeer, strLt(a.SourcePeer, b.SourcePeer), ite(a.SourcePartition != b.SourcePartition, strLt(a.SourcePartition, b.SourcePartition), ite(a.SourceNS != b.SourceNS, strLt(a.SourceNS, b.SourceNS), ite(a.SourceName != b.SourceName, strLt(a.SourceName, b.SourceName), ite(a.DestinationPartition != b.DestinationPartition, strLt(a.DestinationPartition, b.DestinationPartition), ite(a.DestinationNS != b.DestinationNS, strLt(a.DestinationNS, b.DestinationNS), strLt(a.DestinationName, b.DestinationName)))))))))
+//@ pure ixnSameTuple(a *Intention, b *Intention) bool = a.Precedence == b.Precedence && a.SourceSamenessGroup == b.SourceSamenessGroup && a.SourcePeer == b.SourcePeer && a.SourcePartition == b.SourcePartition && a.SourceNS == b.SourceNS && a.SourceName == b.SourceName && a.DestinationPartition == b.DestinationPartition && a.DestinationNS == b.DestinationNS && a.DestinationName == b.DestinationName
+
+//@ func IntentionPrecedenceSorter.Less
+//@ props C13
+//@ results less
+//@ requires 0 <= i && i < len(s) && 0 <= j && j < len(s) && s[i] != nil && s[j] != nil
+//@ ensures[spec] less == ixnLess(s[i], s[j])
+//@ ensures[descending-precedence] s[i].Precedence != s[j].Precedence ==> (less <==> s[i].Precedence > s[j].Precedence)
+//@ modifies nothing
+
+// P2: ixnLess is a strict total order on intentions with distinct (source, destination) tuples, so the sorted
+// list is unique and hence independent of storage or creation order.
+//@ lemma C13.less-irreflexive: forall a *Intention :: !ixnLess(a, a)
+//@ lemma C13.less-asymmetric: forall a *Intention, b *Intention :: ixnLess(a, b) ==> !ixnLess(b, a)
+//@ lemma C13.less-transitive: forall a *Intention, b *Intention, c *Intention :: ixnLess(a, b) && ixnLess(b, c) ==> ixnLess(a, c)
+//@ lemma C13.less-total: forall a *Intention, b *Intention :: ixnLess(a, b) || ixnLess(b, a) || ixnSameTuple(a, b)
+//@ lemma C13.less-orders-by-precedence: forall a *Intention, b *Intention :: a.Precedence > b.Precedence ==> ixnLess(a, b) && !ixnLess(b, a)
+
+//@ file config_entry_intentions.go
+
+//@ func intentionCountExact
+//@ props C13
+//@ results cnt
+//@ requires entMeta != nil
+//@ ensures[count] cnt == exactCount(entMeta.NamespaceOrDefault(), name)
+//@ modifies nothing
+
+//@ func computeIntentionPrecedence
+//@ props C13
+//@ results prec
+//@ requires entry != nil && src != nil
+//@ ensures[formula] prec == 3*exactCount(entry.EnterpriseMeta.NamespaceOrDefault(), entry.Name) + exactCount(src.EnterpriseMeta.NamespaceOrDefault(), src.Name) + 1
+//@ modifies nothing
